@@ -14,7 +14,7 @@ def tolAgree : Float := 1e-12
 /-- specification composition vs implementation, and unitarity -/
 def tolSpec : Float := 1e-10
 
-def handle (inp out : Sexp) : CaseResult :=
+def handle0 (inp out : Sexp) : CaseResult :=
   match inp with
   | .list [.atom "unitary", g, .atom n] =>
     match decodeGate g, n.toNat?, decodeRes out with
@@ -127,6 +127,11 @@ def handle (inp out : Sexp) : CaseResult :=
           tags := ["api", s!"ops{ops.length}", if r.isSome then "built" else "forked-err"],
           detail := s!"model={mOut} impl={out}" }
   | _ => .bad "undecodable input"
+
+/-- `handle0` plus the known-finding classifier tag -/
+def handle (inp out : Sexp) : CaseResult :=
+  let r := handle0 inp out
+  { r with tags := r.tags ++ kfTags "C15" inp }
 
 end QV.C15
 
